@@ -116,6 +116,33 @@ CLAIMED = {
              "generated by the harness.",
         technique="TLA+ grammar (parser + renderer) round-trip model-checked; TLC-generated token sequences with the "
                   "specified verdict replayed into the Go parser"),
+    "C14": dict(
+        category="model_checking",
+        text="spec/Determinism.tla: observations form a history that must be a function of the input (Observe is enabled for a "
+             "known input only with its first observation). MC_Authz shows on the model that the authorizer's result is a "
+             "function of the policy multiset for every iteration order. The driver repeats each operation 30 (thorough 60) "
+             "times on freshly built / freshly decoded objects with rotated insertion orders -- authorization with error "
+             "messages over 12-policy sets and record literals with several failing fields, batch results, MarshalCedar / "
+             "MarshalJSON of policies decoded from JSON and text, policy sets, entity maps, values with colliding members, "
+             "decode -> re-encode -- and TLC validates every repetition as one Observe step (Trace_Determ).",
+        design_ref="DESIGN.md 4 C14",
+        note=TRUSTED + "Map-order resampling is statistical (a two-way choice escapes 30 repetitions with probability 2^-29). "
+             "Reasons and errors are compared as sets, messages included.",
+        technique="TLA+ history specification (functional observations) validated by TLC on recorded repetitions; model "
+                  "checking of order independence of the authorizer loop"),
+    "C19": dict(
+        category="exploration",
+        text="spec/Concurrent.tla: read-only operations of any number of processes on a shared state S, each enabled only with "
+             "its sequential result F(op, S) and UNCHANGED S. Sessions of 8-64 (thorough: up to 128) goroutines sharing one "
+             "PolicySet, EntityMap, requests and values are recorded from a -race build (every call/return with the "
+             "goroutine's own sequence number); TLC validates every event: authorizations against the Authz specification, "
+             "encoders / accessors / batch against their sequential result, deep reflection snapshots of all shared inputs "
+             "against the initial one. Data races are decided by the Go race detector on the same runs.",
+        design_ref="DESIGN.md 4 C19",
+        note=TRUSTED + "The race detector is a borrowed oracle for the memory-model half of the statement (a TLA+ specification "
+             "of the API cannot observe data races). Interleavings are those the scheduler produced; nothing is exhaustive.",
+        technique="TLA+ specification of concurrent read-only use; TLC trace validation of recorded concurrent sessions run "
+                  "under the Go race detector"),
     "C20": dict(
         category="model_checking",
         text="spec/PolicyStore.tla is the container as a state machine (two PolicySet handles, a PolicyMap copy; New, Load, Add, "
